@@ -23,7 +23,7 @@ META = dict(
    technique='TLA+ transcription + TLC exhaustive small-scope equivalence with flat-sequence reference; trace validation of real outputs (TLC) per call',
    design='3/C14')
 
-F7MSG = 'buf[0..ret) is not the extracted bytes / bytes outside it changed'
+F7MSG = 'buf does not hold the extracted bytes where the operation puts them / bytes outside changed'
 C14A_MSG = 'reads iov[0] of an empty iovector_view'
 C14B_MSG = '-1 although the request can be truncated to the content'
 KNOWN_TEXT = {
@@ -65,7 +65,7 @@ def _classify(row, text):
 # Findings met by this check that are not (yet) listed in known-findings.json.  Each is tolerated only with its exact signature
 # (F7_sig/C14a_sig/C14b_sig in IOVector.tla, classify() below).  DELETE an id here when its fix: commit lands (and update the
 # transcription in IOVectorOps.tla, see .scratch/c14/spec_after_fix.diff) or when it is entered as open in known-findings.json.
-PROVISIONAL = {'F7', 'C14a', 'C14b'}
+PROVISIONAL = set()     # C14a, C14b repaired by fix: commits c21d978 / 8a63aa9; F7 reclassified (placement pinned by the repository's own test)
 TOLERATED = set(PROVISIONAL)     # run() adds the ids listed open for C14 in known-findings.json
 
 def _sig(out):
